@@ -125,6 +125,22 @@ def levels : Nat → List Level
     let zs := f2.map (tree true) ++ ys.map (fun t => tree true t)
     prev ++ [⟨ys, zs, f2 ++ ys ++ zs⟩]
 
+/-- structural equality as a Bool (cheap for the kernel to evaluate) -/
+def eqb : DF → DF → Bool
+  | .nil, .nil => true
+  | .cons a k r, .cons b k' r' => (a == b) && eqb k k' && eqb r r'
+  | _, _ => false
+
+/-- no tree occurs twice -/
+def distinct : List DF → Bool
+  | [] => true
+  | t :: ts => !(ts.any (eqb t)) && distinct ts
+
+/-- every tree of level k has order k (levels counted from `k`) -/
+def levelsOK : List Level → Nat → Bool
+  | [], _ => true
+  | L :: Ls, k => L.ys.all (fun t => rho t == k) && L.zs.all (fun t => rho t == k) && levelsOK Ls (k + 1)
+
 def yTreesUpTo (p : Nat) : List DF := (levels p).flatMap (·.ys)
 def zTreesUpTo (p : Nat) : List DF := (levels p).flatMap (·.zs)
 
